@@ -301,14 +301,32 @@ func RunCheckToolCase(cs map[string]any, id int, seed int64, tool, tmp string) R
 		}
 		return strings.Join(p, ",")
 	}
+	// a number may be written in any of the spellings the tool documents by its behaviour: decimal (leading zeros do not make it octal),
+	// 0x / 0X hex, 0o octal, 0b binary; the case id picks one
+	spell := func(v uint32) string {
+		switch id % 6 {
+		case 0:
+			return fmt.Sprintf("%d", v)
+		case 1:
+			return fmt.Sprintf("0%d", v)
+		case 2:
+			return fmt.Sprintf("0x%x", v)
+		case 3:
+			return fmt.Sprintf("0X%X", v)
+		case 4:
+			return fmt.Sprintf("0o%o", v)
+		}
+		return fmt.Sprintf("0b%b", v)
+	}
+	notNumbers := []string{"twelve", "70000", "1_0", "0_0", "-1", "0x", "1e3", "0x1_0", " 7"}
 	switch str("flag") {
 	case "absent":
 	case "match":
 		switch field {
 		case "minimum_qe_svn":
-			args = append(args, fmt.Sprintf("-minimum_qe_svn=%d", qeSvn))
+			args = append(args, "-minimum_qe_svn="+spell(qeSvn))
 		case "minimum_pce_svn":
-			args = append(args, fmt.Sprintf("-minimum_pce_svn=0x%x", pceSvn))
+			args = append(args, "-minimum_pce_svn="+spell(pceSvn))
 		case "rtmrs":
 			args = append(args, "-rtmrs="+rtHex(rt(false, false)))
 		default:
@@ -317,9 +335,9 @@ func RunCheckToolCase(cs map[string]any, id int, seed int64, tool, tmp string) R
 	case "mismatch":
 		switch field {
 		case "minimum_qe_svn":
-			args = append(args, fmt.Sprintf("-minimum_qe_svn=%d", qeSvn+1))
+			args = append(args, "-minimum_qe_svn="+spell(qeSvn+1))
 		case "minimum_pce_svn":
-			args = append(args, fmt.Sprintf("-minimum_pce_svn=%d", pceSvn+1))
+			args = append(args, "-minimum_pce_svn="+spell(pceSvn+1))
 		case "rtmrs":
 			args = append(args, "-rtmrs="+rtHex(rt(true, false)))
 		default:
@@ -328,9 +346,9 @@ func RunCheckToolCase(cs map[string]any, id int, seed int64, tool, tmp string) R
 	case "malformed":
 		switch field {
 		case "minimum_qe_svn":
-			args = append(args, "-minimum_qe_svn=twelve")
+			args = append(args, "-minimum_qe_svn="+notNumbers[id%len(notNumbers)])
 		case "minimum_pce_svn":
-			args = append(args, "-minimum_pce_svn=70000")
+			args = append(args, "-minimum_pce_svn="+notNumbers[(id/2)%len(notNumbers)])
 		case "rtmrs":
 			args = append(args, "-rtmrs=zz,,,")
 		default:
@@ -421,39 +439,59 @@ func RunCheckToolCase(cs map[string]any, id int, seed int64, tool, tmp string) R
 		args = append(args, "-config="+p)
 	}
 
-	cmd := exec.Command(tool, args...)
-	cmd.Env = env
-	var stderr, stdout bytes.Buffer
-	cmd.Stderr, cmd.Stdout = &stderr, &stdout
-	if present == "stdin" {
-		cmd.Stdin = bytes.NewReader(qbytes)
+	// an unparsable binary quote comes in several kinds: bytes that are no quote at all, and genuine quotes cut inside the QE authentication
+	// data (one and two bytes before its end, the enclosing size fields agreeing with the cut) or in the middle of the signed data
+	variants := [][]byte{qbytes}
+	if str("quote") == "unparsable" && str("inform") == "bin" {
+		for _, short := range []int{1, 2} {
+			v := append([]byte{}, c.Raw[:gen.OffAuthData+len(c.Q.Auth)-short]...)
+			binary.LittleEndian.PutUint32(v[gen.OffSDSize:], uint32(len(v)-gen.OffSDSize-4))
+			binary.LittleEndian.PutUint32(v[gen.OffCertSize:], uint32(len(v)-gen.OffCertSize-4))
+			variants = append(variants, v)
+		}
+		variants = append(variants, append([]byte{}, c.Raw[:900]...))
 	}
-	done := make(chan error, 1)
-	if err := cmd.Start(); err != nil {
-		panic(err)
-	}
-	go func() { done <- cmd.Wait() }()
-	exit, hung := 0, false
-	select {
-	case err := <-done:
-		var ee *exec.ExitError
-		if errors.As(err, &ee) {
-			exit = ee.ExitCode()
-		} else if err != nil {
+	var events []Event
+	for vi, qb := range variants {
+		qbytes := qb
+		os.WriteFile(qpath, qbytes, 0o600)
+		cmd := exec.Command(tool, args...)
+		cmd.Env = env
+		var stderr, stdout bytes.Buffer
+		cmd.Stderr, cmd.Stdout = &stderr, &stdout
+		if present == "stdin" {
+			cmd.Stdin = bytes.NewReader(qbytes)
+		}
+		done := make(chan error, 1)
+		if err := cmd.Start(); err != nil {
 			panic(err)
 		}
-	case <-time.After(30 * time.Second):
-		cmd.Process.Kill()
-		hung = true
-		exit = -2
+		go func() { done <- cmd.Wait() }()
+		exit, hung := 0, false
+		select {
+		case err := <-done:
+			var ee *exec.ExitError
+			if errors.As(err, &ee) {
+				exit = ee.ExitCode()
+			} else if err != nil {
+				panic(err)
+			}
+		case <-time.After(30 * time.Second):
+			cmd.Process.Kill()
+			hung = true
+			exit = -2
+		}
+		se := stderr.String() + stdout.String()
+		crash := hung || strings.Contains(se, "panic:") || strings.Contains(se, "goroutine 1 [running]")
+		tail := se
+		if len(tail) > 300 {
+			tail = tail[len(tail)-300:]
+		}
+
+		events = append(events, Event{"ev": "Call", "case": id, "input": cs, "variant": vi, "args": strings.Join(args[2:], " ")},
+			Event{"ev": "Return", "exit": exit, "crash": crash, "silent": len(se) == 0, "fatalLine": strings.Contains(stderr.String(), "FATAL:"), "stderrEmpty": stderr.Len() == 0, "stderr": tail, "result": fmt.Sprintf("exit%d", exit)})
 	}
-	se := stderr.String() + stdout.String()
-	crash := hung || strings.Contains(se, "panic:") || strings.Contains(se, "goroutine 1 [running]")
-	tail := se
-	if len(tail) > 300 {
-		tail = tail[len(tail)-300:]
-	}
-	return Result{ID: id, Events: []Event{{"ev": "Call", "case": id, "input": cs, "args": strings.Join(args[2:], " ")}, {"ev": "Return", "exit": exit, "crash": crash, "silent": len(se) == 0, "fatalLine": strings.Contains(stderr.String(), "FATAL:"), "stderrEmpty": stderr.Len() == 0, "stderr": tail, "result": fmt.Sprintf("exit%d", exit)}}}
+	return Result{ID: id, Events: events}
 }
 
 type failingGetter struct {
